@@ -168,8 +168,10 @@ def text_for(t, bpc):
     if bpc == 2:
         return b"".join(t.pick([0x41, 0x42, 0x43, 0x44, 0x45, 0x3042, 0x30A2, 0x4E00, 1, 2, 3, 4], "txt.cid").to_bytes(2, "big") for _ in range(n))
     if bpc == "euc":
-        return b"".join(t.pick([b"\xa4\xa2", b"\xa5\xa2", b"\xb0\xa1", b"A", b"\x8e\xb1"], "txt.euc") for _ in range(n))
-    return b"".join(t.pick([b"\x82\xa0", b"\x83\x41", b"\x88\x9f", b"A", b"\xb1"], "txt.sjis") for _ in range(n))
+        s = b"".join(t.pick([b"\xa4\xa2", b"\xa5\xa2", b"\xb0\xa1", b"A", b"\x8e\xb1"], "txt.euc") for _ in range(n))
+        return s + (b"\xa4" if t.coin(15, 100, "txt.cutlead") else b"")  # sometimes the string ends in a lone lead byte
+    s = b"".join(t.pick([b"\x82\xa0", b"\x83\x41", b"\x88\x9f", b"A", b"\xb1"], "txt.sjis") for _ in range(n))
+    return s + (b"\x82" if t.coin(15, 100, "txt.cutlead") else b"")
 
 
 # variants that collide with one another (same names, same shared objects, same process-wide tables): a pool draws most
